@@ -120,14 +120,14 @@ def list_jobs(tier):
     f64 = [i for i in corpus.registry_ids(include_f64=True) if "_f64#" in i]
     ids += f64 if tier == "thorough" else f64[:: max(1, len(f64) // 150)]
     a1 = families.ids("A1", tier)
-    ids += [f"D/{i}" for i in (a1 if tier == "thorough" else a1[::4])]
+    ids += [f"D/{i}" for i in (a1 if tier == "thorough" else sorted(set(a1[::4] + [i for i in a1 if "/dbl." in i])))]
     a1q = families.ids("A1", "quick")
     ids += [f"OFF/{i}" for i in (corpus.registry_ids()[::9] + sorted(set(a1q[::5] + [i for i in families.ids("A1", tier) if "/mixdt." in i])))]
     return ids
 
 
 def options(tier):
-    return pipeline.Options(tau=1e-10, timeout_ms=2500 if tier == "quick" else 30000, max_queries=48 if tier == "quick" else 128, unroll=4, max_unknown=1 if tier == "quick" else 2, budget_s=20.0 if tier == "quick" else 90.0)
+    return pipeline.Options(tau=1e-10, timeout_ms=2500 if tier == "quick" else 30000, max_queries=48 if tier == "quick" else 128, unroll=4, max_unknown=1 if tier == "quick" else 2, budget_s=20.0 if tier == "quick" else 90.0, ort_reject_is_violation=True)
 
 
 def get(job):
